@@ -78,8 +78,9 @@ func FrontOracle(src string) *FrontVerdict {
 	}
 	kinds := ref.EarleyKinds(v.Toks)
 	ok, at := gStrict.Recognise(kinds)
+	paramFail := false
 	if po := paramOverflow(v.Toks); po >= 0 && (ok || po < at) {
-		ok, at = false, po
+		ok, at, paramFail = false, po, true
 	}
 	v.Accept, v.FailTok = ok, at
 	// ধরি declarations spanning a line break: out of domain
@@ -120,7 +121,9 @@ func FrontOracle(src string) *FrontVerdict {
 			}
 		}
 	}
-	if !ok {
+	if !ok && paramFail {
+		v.OKLines = []int{v.Toks[at].Line}
+	} else if !ok {
 		if t, tat := gTrailing.Recognise(kinds); t {
 			v.OOD = "only departure from the grammar is a trailing comma in an object literal"
 		} else if tat > at {
